@@ -49,6 +49,19 @@ CLAIMED = {
         "Trusted: Coq kernel; the crash semantics in Spec/FsOps.v; the translator (checked against observed traces); rename(2) atomicity; "
         "no durability claim across power loss (no fsync).",
         "DESIGN.md section 5 C17"),
+    "C18": (
+        "Coq-certified reachability/effect checkers (closed_sound, readonly_cmd_sound) applied by vm_compute to the call graph and "
+        "effect summary regenerated from the package; small operational models of the probe and of rename; audit-hook traces; snapshots",
+        "Machine-checked proof that whenever the executable checker accepts a (call graph, effect summary, roots) triple, every execution "
+        "that stays within the summary leaves every path unchanged; instances by computation for recheck, info and magnet on the "
+        "over-approximate call graph a translator regenerates from torrentfile/*.py on every run; proof that the writability probe "
+        "(op list regenerated from check_path_writable) restores its path in every case so that create changes exactly the output path; "
+        "proof that rename (op list regenerated from commands.rename) refuses without effect when the new name exists and otherwise moves "
+        "the same bytes and touches nothing else.  Tie: audited filesystem events of real runs must be of predicted kinds; search: full "
+        "recursive snapshots around every command spelling, version, intact/damaged tree and output variant.",
+        "Trusted: Coq kernel; the translators' over-approximation (name-based call resolution; validated dynamically, not proved); "
+        "standard-library effects beyond the audited primitives; no concurrent processes.",
+        "DESIGN.md section 5 C18"),
 }
 
 PENDING_REASON = "check not built yet (work in progress; see DESIGN.md section 9)"
